@@ -5,7 +5,8 @@ CHECK = {
         suite("ps", "c14", 800, 8000, stdin=True, args=["-suite", "ps"], timeout={"quick": 600, "thorough": 1800}),
     ],
     "search_seeds": {"quick": 3, "thorough": 2},
-    "lean_sources": ["ClusterVerif/Model/C14.lean", "ClusterVerif/Spec/C14.lean", "ClusterVerif/Lemmas/C14.lean"],
+    "gen": [{"pkg": "extract_c14", "out": "lean/ClusterVerif/Gen/C14.lean"}],
+    "lean_sources": ["ClusterVerif/Model/C14Source.lean", "ClusterVerif/Gen/C14.lean", "ClusterVerif/Model/C14.lean", "ClusterVerif/Spec/C14.lean", "ClusterVerif/Lemmas/C14.lean"],
     "rule": "pins: (pinset of 0-40 generated pins over all types/options, prior content of the target, stream damage) through "
             "Marshal/Unmarshal, SnapshotSave/OfflineState, raft and crdt state-manager export/import (and a started Raft peer on some); "
             "rot: (retention, pre-existing folder set with gaps/outside the window, 1-14 clean/save/mkdir/reconfigure operations) on real folders; "
@@ -25,5 +26,5 @@ META = {
             "pstoremgr on seeded cases and checking model agreement and the Lean property checker on the real outputs.",
     "note": "export/import is proved for pinsets without origins; a pin with origins cannot be decoded from JSON (known finding K01c). "
             "Atoms are table indices (byte codecs are C08's subject).",
-    "technique": "Lean 4 theorems over functional/relational models + differential correspondence with the real code",
+    "technique": "regenerated source text of the anchored functions checked against the transcribed snapshot (rfl) + Lean 4 theorems over functional/relational models + differential correspondence with the real code",
 }
